@@ -100,4 +100,22 @@ Fixpoint has_field (e : sx) : bool :=
   | SFn _ a => has_field a
   end.
 
+(* sympy's automatic 0 / 1 elimination when it builds an Add or a Mul (the only part of its
+   canonicalisation the models need: it decides whether log(b) of a field survives) *)
+Definition is_zero (x : sx) : bool := match x with SNum Z0 _ => true | _ => false end.
+Definition is_one (x : sx) : bool := match x with SNum (Zpos xH) xH => true | _ => false end.
+Definition smul (l : list sx) : sx :=
+  if existsb is_zero l then sZ 0 else
+  match filter (fun x => negb (is_one x)) l with
+  | [] => sZ 1
+  | [x] => x
+  | l' => SMul l'
+  end.
+Definition sadd (l : list sx) : sx :=
+  match filter (fun x => negb (is_zero x)) l with
+  | [] => sZ 0
+  | [x] => x
+  | l' => SAdd l'
+  end.
+
 Definition sx_eqb (a b : sx) : bool := texpr_eqb (sx2t a) (sx2t b).
